@@ -118,15 +118,10 @@ class _ModelPool:
         return f
 
     def _complete(self, f):
-        # result() of a specific future: everything FIFO-ahead of it that must have started may or may not have
-        # completed; the minimal faithful behaviour is to run this very call now (it is in the window or becomes so
-        # after older ones completed)
+        # result() of a specific future: the scheduler keeps completing enabled calls (FIFO by default, any other
+        # enabled one under a deviation / explicit plan) until this one is done
         while not f.done_:
-            win = self._window()
-            if f in win:
-                self._run(f)
-            else:
-                self._run(win[0])
+            self._complete_next()
 
     def _run(self, f):
         raise NotImplementedError
